@@ -6,7 +6,7 @@ from __future__ import annotations
 
 import ast
 
-from ..flow import CallGraph, self_stores, self_reads
+from ..flow import CallGraph, self_stores, self_reads, resolve_accessor_call
 from ..repo import AnalysisError, dotted, norm_text, walk_no_nested, FuncInfo
 
 SIMU = "EasyFEA.Simulations._simu._Simu"
@@ -52,6 +52,10 @@ def calls_any(cg, f, names, depth=3, _seen=None):
             if d.split(".")[-1] in names:
                 return True
     for n in ast.walk(f.node):
+        if isinstance(n, ast.Call):
+            acc = resolve_accessor_call(cg.repo, f, n)  # Base.prop.fset(self, v): the overridden setter
+            if acc is not None and calls_any(cg, acc, names, depth - 1, _seen):
+                return True
         if isinstance(n, ast.Call) and isinstance(n.func, ast.Attribute) and isinstance(n.func.value, ast.Name) and n.func.value.id == "self" and f.cls is not None:
             for g in cg.resolve_self_attr(f.cls, n.func.attr, include_overrides=False):
                 if calls_any(cg, g, names, depth - 1, _seen):
@@ -124,6 +128,7 @@ def motion_notify_rule(ctx, cg=None):
 
 
 def run(ctx):
+    ctx.attempt(history_state_reset_rule, ctx)
     from ..shared import snapshot_rule as _snapshot_rule
 
     ctx.attempt(_snapshot_rule, ctx, "R14.18", scope=lambda ci: ci.module.name.startswith(("EasyFEA.Models", "EasyFEA.Simulations")))
@@ -489,3 +494,71 @@ def mesh_index_rule(ctx, rid="R14.17"):
             r.ok(f"history of 3 meshes, mesh {current} current: the new mesh is entry {idx}, current and observed")
         else:
             r.fail(f.qualname + ".setter", "mesh-index", f.file, f.lineno, "_Simu.mesh.setter", f"history of 3 meshes with mesh {current} current (an earlier iteration was restored): after the assignment indexMesh = {idx!r} designates {'mesh ' + str(lst[idx].attrs.get('tag')) if isinstance(idx, int) and 0 <= idx < len(lst) else 'nothing'} of a history of {len(lst)}, not the assigned mesh: Save_Iter records that index, restoring the iteration later loads another mesh")
+
+
+def history_state_reset_rule(ctx, rid="R14.19"):
+    """'replacing the mesh ... identical to a new simulation': the mesh setter re-initialises the solutions; the history
+    a simulation class commits in Save_Iter / restores in Set_Iter (internal variables, history energies) belongs to
+    the replaced mesh as well, so the effective mesh setter of that class -- its own override or anything it reaches
+    through self -- must write it.  (A fresh simulation starts from an empty history; a survivor is read by the next
+    Solve: plastic strains or a damage-driving energy of another mesh.)"""
+    repo = ctx.repo
+    simu = repo.cls(SIMU)
+    r = ctx.rule(rid, "history committed by Save_Iter / restored by Set_Iter of a simulation class is re-initialised by the effective mesh setter of that class (virtual dispatch through self resolved on the class)", min_instances=3)
+
+    def stores(f):
+        out = {}
+        for n in ast.walk(f.node):
+            tg = n.targets if isinstance(n, ast.Assign) else [n.target] if isinstance(n, (ast.AugAssign, ast.AnnAssign)) else []
+            for t in tg:
+                for x in (t.elts if isinstance(t, (ast.Tuple, ast.List)) else [t]):
+                    if isinstance(x, ast.Attribute) and isinstance(x.value, ast.Name) and x.value.id == "self":
+                        out.setdefault(f.cls.mangle(x.attr) if f.cls is not None else x.attr, []).append(n)
+        return out
+
+    for ci in [simu] + list(repo.subclasses(simu)):
+        hist = {}
+        for nm in ("Save_Iter", "Set_Iter"):
+            f = ci.methods.get(nm)
+            if f is None or f.cls is not ci:
+                continue
+            for attr, nodes in stores(f).items():
+                if any(getattr(n, "value", None) is not None and not isinstance(n.value, ast.Constant) for n in nodes) and attr.startswith("_" + ci.name + "__"):
+                    hist.setdefault(attr, f)
+        if not hist:
+            continue
+        setter = repo.lookup_setter(ci, "mesh")
+        if setter is None:
+            raise AnalysisError(f"{rid}: no mesh setter found for {ci.name}")
+        # closure of the setter on the concrete class
+        seen, todo, written = set(), [setter], set()
+        while todo:
+            f = todo.pop()
+            if id(f) in seen:
+                continue
+            seen.add(id(f))
+            r.analysed(f.qualname)
+            written |= set(stores(f))
+            for n in ast.walk(f.node):
+                if not isinstance(n, ast.Call):
+                    continue
+                fn = n.func
+                if isinstance(fn, ast.Attribute) and isinstance(fn.value, ast.Name) and fn.value.id == "self":
+                    nm = f.cls.mangle(fn.attr) if f.cls is not None else fn.attr
+                    g = repo.lookup_method(ci, nm)
+                    if g is not None:
+                        todo.append(g)
+                acc = resolve_accessor_call(repo, f, n)
+                if acc is not None:
+                    todo.append(acc)
+                if isinstance(fn, ast.Attribute) and isinstance(fn.value, ast.Call) and dotted(fn.value.func) == "super" and f.cls is not None:
+                    g = repo.lookup_method(f.cls, fn.attr, start_after=f.cls)
+                    if g is not None:
+                        todo.append(g)
+        for attr, f in sorted(hist.items()):
+            r.instance(fn=f.qualname)
+            short = attr.split("__", 1)[1]
+            if attr in written:
+                r.ok(f"{ci.name}.__{short}: written on mesh replacement")
+            else:
+                r.fail(f"{ci.qualname}.{attr}", "survives-mesh-replacement", f.file, f.lineno, f"{ci.name}.{f.name}", f"{ci.name}.__{short} (history committed by {f.name}) is not re-initialised when the mesh is replaced: `simu.mesh = other` resets the solutions and the boundary conditions but the next Solve starts from the history of the previous mesh (a new simulation on that mesh starts from none)")
